@@ -20,6 +20,8 @@ type GuessAndCheck struct {
 	bestF   float64
 	bestX   []float64
 	hasBest bool
+	bestID  int // draw number of the best location
+	draws   int // number of locations drawn so far
 }
 
 func (*GuessAndCheck) Uses(has Available) (uses Available, err error) {
@@ -36,18 +38,25 @@ func (g *GuessAndCheck) Init(dim, tasks int) int {
 	g.bestF = math.Inf(1)
 	g.bestX = resize(g.bestX, dim)
 	g.hasBest = false
+	g.draws = 0
 	return tasks
 }
 
 func (g *GuessAndCheck) sendNewLoc(operation chan<- Task, task Task) {
 	g.Rander.Rand(task.X)
+	task.ID = g.draws
+	g.draws++
 	task.Op = FuncEvaluation
 	operation <- task
 }
 
 func (g *GuessAndCheck) updateMajor(operation chan<- Task, task Task) {
 	// Update the best value seen so far, and send a MajorIteration.
-	if !g.hasBest || task.F < g.bestF || math.IsNaN(g.bestF) {
+	// Results arrive in completion order when several tasks are used: ties
+	// (and NaNs) are decided by the order of the draws, as in a serial run.
+	sameF := task.F == g.bestF || (math.IsNaN(task.F) && math.IsNaN(g.bestF))
+	if !g.hasBest || task.F < g.bestF || (math.IsNaN(g.bestF) && !math.IsNaN(task.F)) || (sameF && task.ID < g.bestID) {
+		g.bestID = task.ID
 		g.bestF = task.F
 		copy(g.bestX, task.X)
 		g.hasBest = true
